@@ -112,6 +112,7 @@ type Interp struct {
 	extra   map[string]interface{}
 	replaced map[string]Value
 	curModel *Model
+	hidden   []*Term
 	tolerantInit *ssa.Function
 	speculating bool
 }
@@ -244,6 +245,7 @@ func (in *Interp) ensureModel() bool {
 // solveModel checks pc ∧ extra and returns a model when sat.
 func (in *Interp) solveModel(extra *Term) (SatResult, *Model) {
 	want := append([]*Term(nil), in.inputs...)
+	want = append(want, in.hidden...)
 	for _, u := range in.ufApps {
 		want = append(want, u)
 		want = append(want, u.args...)
@@ -258,7 +260,10 @@ func (in *Interp) solveModel(extra *Term) (SatResult, *Model) {
 			m.vars[t] = vals[i]
 		}
 	}
-	k := len(in.inputs)
+	for i, t := range in.hidden {
+		m.vars[t] = vals[len(in.inputs)+i]
+	}
+	k := len(in.inputs) + len(in.hidden)
 	for _, u := range in.ufApps {
 		ret := vals[k]
 		k++
